@@ -424,11 +424,30 @@ static int op_wake(void) { g_ev->cb_wake(g_ev); return 1; /* callback: void */ }
 static void d_wake(void) { clear_ctxs(); d_seh(); d_ev(); }
 
 static int op_alog_init(void) { return muggle_async_logger_init(&g_alog, 8) == 0; }
+/* a handler that accepts messages from `level` on and does nothing with them (no acquisition): since the
+ * logger's pre-filter asks the ATTACHED handlers, the message allocation + queue push of
+ * muggle_async_logger_log only runs when some handler accepts the level */
+static muggle_log_handler_t g_sink;
+static int g_sink_writes;
+static int sink_write(struct muggle_log_handler *h, const muggle_log_msg_t *msg) { (void)h; (void)msg; g_sink_writes++; return 0; }
+static int attach_sink(int level)
+{
+	if (muggle_log_handler_init_default(&g_sink) != 0) return 0;
+	g_sink.write = sink_write;
+	g_sink.destroy = muggle_log_handler_destroy_default;
+	muggle_log_handler_set_level(&g_sink, level);
+	muggle_logger_t *lg = (muggle_logger_t *)&g_alog;
+	return lg->add_handler(lg, &g_sink) == 0;
+}
 static int pre_alog(void)
 {
 	if (muggle_async_logger_init(&g_alog, 8) != 0) return 0;
-	g_alog.logger.lowest_log_level = MUGGLE_LOG_LEVEL_TRACE;
-	return 1;
+	return attach_sink(MUGGLE_LOG_LEVEL_TRACE);        /* accepts the INFO message logged by the operation */
+}
+static int pre_alog_filtered(void)
+{
+	if (muggle_async_logger_init(&g_alog, 8) != 0) return 0;
+	return attach_sink(MUGGLE_LOG_LEVEL_FATAL);        /* no attached handler accepts INFO: early-out, no acquisition */
 }
 static int op_alog_log(void)
 {
@@ -438,6 +457,7 @@ static int op_alog_log(void)
 	return 1; /* void API */
 }
 static void d_alog(void) { muggle_async_logger_destroy((muggle_logger_t *)&g_alog); }
+static void d_alog_sink(void) { d_alog(); g_sink.destroy(&g_sink); }
 
 /* ---------------------------------------------------------------- log handlers that own a FILE* */
 static void fresh_logfile(void)
@@ -524,7 +544,8 @@ static const struct inst g_inst[] = {
 	{ "socket_evloop_handle_init", NULL, op_seh_init, d_seh, 1, 0 },
 	{ "socket_evloop_add_ctx", pre_seh_ev, op_seh_add_ctx, d_seh_ev, 1, 0 },
 	{ "async_logger_init", NULL, op_alog_init, d_alog, 0, 1 },
-	{ "async_logger_log", pre_alog, op_alog_log, d_alog, 1, 1 },
+	{ "async_logger_log", pre_alog, op_alog_log, d_alog_sink, 1, 1 },
+	{ "async_logger_log_filtered", pre_alog_filtered, op_alog_log, d_alog_sink, 1, 1 },
 	{ "channel_init_default", NULL, op_chan_default, d_chan, 1, 0 },
 	{ "array_list_insert_grow", pre_al_full, op_al_insert, d_al, 1, 0 },
 	{ "linked_list_insert", pre_ll0, op_ll_insert, d_ll, 1, 0 },
